@@ -4,28 +4,79 @@ go 1.26.8
 
 require github.com/cube2222/octosql v0.0.0
 
+replace github.com/cube2222/octosql => /repo
+
+// the rest is /repo/go.mod verbatim (requirements and replace directives of the main module are not inherited)
+
 require (
-	github.com/Masterminds/semver v1.5.0 // indirect
-	github.com/adrg/xdg v0.4.0 // indirect
-	github.com/awalterschulze/gographviz v2.0.3+incompatible // indirect
-	github.com/cespare/xxhash v1.1.0 // indirect
-	github.com/dgraph-io/ristretto v0.0.3 // indirect
-	github.com/fsnotify/fsnotify v1.4.9 // indirect
-	github.com/golang/protobuf v1.5.3 // indirect
-	github.com/google/btree v1.1.2 // indirect
-	github.com/mitchellh/go-homedir v1.1.0 // indirect
-	github.com/nxadm/tail v1.4.8 // indirect
-	github.com/oklog/ulid/v2 v2.0.2 // indirect
-	github.com/pkg/errors v0.9.1 // indirect
-	github.com/segmentio/fasthash v1.0.3 // indirect
-	github.com/tidwall/btree v1.3.1 // indirect
-	github.com/valyala/fastjson v1.6.3 // indirect
-	github.com/zyedidia/generic v1.1.0 // indirect
-	golang.org/x/exp v0.0.0-20220414153411-bcd21879b8fd // indirect
-	golang.org/x/sys v0.8.0 // indirect
-	google.golang.org/protobuf v1.30.0 // indirect
-	gopkg.in/tomb.v1 v1.0.0-20141024135613-dd632973f1e7 // indirect
-	gopkg.in/yaml.v3 v3.0.1 // indirect
+	github.com/Masterminds/semver v1.5.0
+	github.com/adrg/xdg v0.4.0
+	github.com/awalterschulze/gographviz v2.0.3+incompatible
+	github.com/c-bata/go-prompt v0.2.6
+	github.com/dgraph-io/ristretto v0.0.3
+	github.com/golang/protobuf v1.5.3
+	github.com/google/btree v1.1.2
+	github.com/gosuri/uilive v0.0.4
+	github.com/jackc/pgx v3.6.2+incompatible
+	github.com/kr/text v0.2.0
+	github.com/mholt/archiver v3.1.1+incompatible
+	github.com/mitchellh/go-homedir v1.1.0
+	github.com/nxadm/tail v1.4.8
+	github.com/oklog/ulid/v2 v2.0.2
+	github.com/olekukonko/tablewriter v0.0.5
+	github.com/pkg/errors v0.9.1
+	github.com/pkg/profile v1.6.0
+	github.com/pmezard/go-difflib v1.0.0
+	github.com/segmentio/fasthash v1.0.3
+	github.com/segmentio/parquet-go v0.0.0-20220421002521-93f8e5ed3407
+	github.com/skratchdot/open-golang v0.0.0-20200116055534-eef842397966
+	github.com/spf13/cobra v1.4.0
+	github.com/stretchr/testify v1.7.0
+	github.com/tidwall/btree v1.3.1
+	github.com/valyala/fastjson v1.6.3
+	github.com/zyedidia/generic v1.1.0
+	golang.org/x/exp v0.0.0-20220414153411-bcd21879b8fd
+	google.golang.org/grpc v1.55.0
+	google.golang.org/protobuf v1.30.0
+	gopkg.in/yaml.v3 v3.0.1
 )
 
-replace github.com/cube2222/octosql => /repo
+require (
+	github.com/andybalholm/brotli v1.0.3 // indirect
+	github.com/cespare/xxhash v1.1.0 // indirect
+	github.com/cockroachdb/apd v1.1.0 // indirect
+	github.com/davecgh/go-spew v1.1.1 // indirect
+	github.com/dsnet/compress v0.0.1 // indirect
+	github.com/frankban/quicktest v1.14.0 // indirect
+	github.com/fsnotify/fsnotify v1.4.9 // indirect
+	github.com/gofrs/uuid v4.0.0+incompatible // indirect
+	github.com/golang/snappy v0.0.4 // indirect
+	github.com/google/uuid v1.3.0 // indirect
+	github.com/inconshreveable/mousetrap v1.0.0 // indirect
+	github.com/jackc/fake v0.0.0-20150926172116-812a484cc733 // indirect
+	github.com/klauspost/compress v1.15.2 // indirect
+	github.com/lib/pq v1.9.0 // indirect
+	github.com/mattn/go-colorable v0.1.12 // indirect
+	github.com/mattn/go-isatty v0.0.14 // indirect
+	github.com/mattn/go-runewidth v0.0.13 // indirect
+	github.com/mattn/go-tty v0.0.3 // indirect
+	github.com/nwaples/rardecode v1.1.2 // indirect
+	github.com/pierrec/lz4 v2.6.1+incompatible // indirect
+	github.com/pierrec/lz4/v4 v4.1.9 // indirect
+	github.com/pkg/term v1.2.0-beta.2 // indirect
+	github.com/rivo/uniseg v0.2.0 // indirect
+	github.com/segmentio/encoding v0.3.5 // indirect
+	github.com/shopspring/decimal v1.2.0 // indirect
+	github.com/spf13/pflag v1.0.5 // indirect
+	github.com/ulikunitz/xz v0.5.10 // indirect
+	github.com/xi2/xz v0.0.0-20171230120015-48954b6210f8 // indirect
+	golang.org/x/crypto v0.9.0 // indirect
+	golang.org/x/net v0.10.0 // indirect
+	golang.org/x/sys v0.8.0 // indirect
+	golang.org/x/text v0.9.0 // indirect
+	google.golang.org/genproto v0.0.0-20230306155012-7f2fa6fef1f4 // indirect
+	gopkg.in/check.v1 v1.0.0-20201130134442-10cb98267c6c // indirect
+	gopkg.in/tomb.v1 v1.0.0-20141024135613-dd632973f1e7 // indirect
+)
+
+replace github.com/segmentio/parquet-go v0.0.0-20220421002521-93f8e5ed3407 => github.com/cube2222/parquet-go v0.0.0-20220512155810-0e06eee50261
